@@ -1,6 +1,92 @@
-//! Kani harnesses for nomt/src/bitbox/writeout.rs (compiled into the real crate only under cfg(kani)).
+//! K1: effect-order and error-propagation contracts of nomt/src/bitbox/writeout.rs, checked on the
+//! real functions with std I/O stubbed by a ghost log that can fail at any position.
 #![allow(unused_imports, dead_code)]
 use super::*;
+use crate::io::verif_kani as gh;
+
+/// write_wal: Ok  ==> trace == [set_len 0, seek 0, write(len), fsync] (the blob is durable before Ok)
+///            any failing operation ==> Err, and nothing is issued after the failing one.
+#[kani::proof]
+#[kani::unwind(3)]
+#[kani::stub(std::fs::File::set_len, gh::stub_set_len)]
+#[kani::stub(std::fs::File::sync_all, gh::stub_sync_all)]
+#[kani::stub(<&std::fs::File as std::io::Seek>::seek, gh::stub_seek)]
+#[kani::stub(<&std::fs::File as std::io::Write>::write, gh::stub_write)]
+fn write_wal_effects() {
+    let f = gh::kani_file(7);
+    let blob: [u8; 8] = kani::any();
+    let n: usize = kani::any();
+    kani::assume(n >= 1 && n <= 8);
+    let r = write_wal(&f, &blob[..n]);
+    let k = gh::log_len();
+    if r.is_ok() {
+        assert!(gh::failed_at() == usize::MAX);
+        assert!(k == 4);
+        assert!(gh::log_at(0) == gh::OP_SET_LEN && gh::log_arg(0) == 0);
+        assert!(gh::log_at(1) == gh::OP_SEEK && gh::log_arg(1) == 0);
+        assert!(gh::log_at(2) == gh::OP_WRITE && gh::log_arg(2) == n as u64);
+        assert!(gh::log_at(3) == gh::OP_FSYNC);
+    } else {
+        // the error is the injected one and nothing was issued after it
+        assert!(gh::failed_at() != usize::MAX);
+        assert!(gh::failed_at() == k - 1);
+    }
+    // no failure is swallowed
+    assert!((gh::failed_at() != usize::MAX) == r.is_err());
+    kani::cover!(r.is_ok(), "success path reachable");
+    kani::cover!(r.is_err() && k == 3, "failure of the write reachable");
+}
+
+/// truncate_wal(do_sync): set_len 0, seek 0, fsync iff do_sync; failures propagate.
+#[kani::proof]
+#[kani::stub(std::fs::File::set_len, gh::stub_set_len)]
+#[kani::stub(std::fs::File::sync_all, gh::stub_sync_all)]
+#[kani::stub(<&std::fs::File as std::io::Seek>::seek, gh::stub_seek)]
+fn truncate_wal_effects() {
+    let f = gh::kani_file(7);
+    let do_sync: bool = kani::any();
+    let r = truncate_wal(&f, do_sync);
+    let k = gh::log_len();
+    if r.is_ok() {
+        assert!(k == if do_sync { 3 } else { 2 });
+        assert!(gh::log_at(0) == gh::OP_SET_LEN && gh::log_arg(0) == 0);
+        assert!(gh::log_at(1) == gh::OP_SEEK && gh::log_arg(1) == 0);
+        if do_sync {
+            assert!(gh::log_at(2) == gh::OP_FSYNC);
+        }
+    } else {
+        assert!(gh::failed_at() == k - 1);
+    }
+    assert!((gh::failed_at() != usize::MAX) == r.is_err());
+    kani::cover!(r.is_ok() && do_sync, "synced success reachable");
+    kani::cover!(r.is_err(), "failure reachable");
+}
+
+// write_ht itself is proved in Verus (unit v8_write_ht); a Kani harness over it does not terminate
+// in reasonable time (crossbeam channel and page-pool drop glue dominate symbolic execution).
+// ---- write_ht: native replay scenario (run with `cargo kani playback`, real I/O pool) ------------
+/// The hash-table file is opened read-only, so every page write fails with EBADF.  `write_ht` must
+/// report the failure (C14: no I/O failure is ever swallowed).
+#[cfg(test)]
+#[test]
+fn replay_write_ht_reports_failed_page_write() {
+    let dir = std::env::temp_dir().join(format!("verif-write-ht-{}", std::process::id()));
+    let _ = std::fs::remove_dir_all(&dir);
+    std::fs::create_dir_all(&dir).unwrap();
+    let path = dir.join("ht");
+    std::fs::write(&path, vec![0u8; 4096 * 4]).unwrap();
+    let ht_fd = std::fs::OpenOptions::new().read(true).open(&path).unwrap(); // read-only!
+    let page_pool = crate::io::PagePool::new();
+    let io_pool = crate::io::start_io_pool(1, page_pool.clone());
+    let page = Arc::new(page_pool.alloc_fat_page());
+    let r = write_ht(io_pool.make_handle(), &ht_fd, vec![(1, page)]);
+    let _ = std::fs::remove_dir_all(&dir);
+    assert!(r.is_err(), "write_ht returned Ok although the page write failed (EBADF)");
+}
+
+#[cfg(test)]
+include!("/verif/.build/playback/bitbox_writeout.inc");
+
 
 #[cfg(test)]
 include!("/verif/.build/playback/bitbox_writeout.inc");
